@@ -150,6 +150,12 @@ def fixed_probes():
     for nm, setup_, body_ in gates:
         add("unsafe_gate", f"{nm} needs unsafe", f"    {setup_}\n    {body_.replace('{U}', '').replace('{V}', '')}", False)
         add("unsafe_gate", f"{nm} inside an unsafe block", f"    {setup_}\n    {body_.replace('{U}', 'unsafe {{ ').replace('{V}', ' }}')}".replace("{{", "{").replace("}}", "}"), True)
+    # a shared view obtained from a mutable slice borrows that slice: no write through the slice while the shared view is alive
+    for how in ("as_ref", "as_slice", "reborrow"):
+        add("mutate", f"write through a mutable slice while its {how}() is alive", f"    let mut v = make(); let mut m = v.as_mut_slice();\n    let s = m.{how}();\n    *m.index_mut(0).a += 1;\n    use_(&s);", False)
+        add("mutate", f"{how}() of a mutable slice, then write once it is dead", f"    let mut v = make(); let mut m = v.as_mut_slice();\n    {{ let s = m.{how}(); use_(&s); }}\n    *m.index_mut(0).a += 1;", True)
+    # a named mutable slice can be walked more than once, and used after a walk
+    add("idiom", "two passes over one mutable slice", "    let mut v = make(); let mut m = v.as_mut_slice();\n    for r in m.iter_mut() { *r.a += 1; }\n    for r in m.iter() { use_(&r); }\n    m.swap(0, 1); *m.index_mut(0).a += 1;", True)
     # what a callback is shown lives for the call only: it cannot be kept and looked at after the container was reordered / compacted
     add("callback", "sort_by_key argument cannot escape", "    let mut v = make(); let mut s = v.as_mut_slice(); let mut seen = Vec::new();\n    s.sort_by_key(|e| { seen.push(e); *e.a });\n    use_(&seen);", False)
     add("callback", "sort_by arguments cannot escape", "    let mut v = make(); let mut s = v.as_mut_slice(); let mut seen = Vec::new();\n    s.sort_by(|x, y| { seen.push(x); x.a.cmp(y.a) });\n    use_(&seen);", False)
